@@ -1020,6 +1020,11 @@ class Runner:
         if err_old != err_new and (err_old is None or err_new is None or err_old.split(':')[0] != err_new.split(':')[0]):
             self.problems.append(dict(sig='exception-after-switch:%s:%s' % (h['kind'], (err_old or 'none').split(':')[0]),
                                       what='object built earlier raises %r where a fresh one gives %r' % (err_old, err_new), detail=what))
+        elif err_new is not None:
+            # old and fresh fail alike: not a history effect, but the object does not evaluate under this backend at all
+            self.problems.append(dict(sig='evaluation-raises:%s:%s' % (h['kind'], err_new.split(':')[0]),
+                                      what='evaluation under %s/%s raises %r (old and freshly built object alike)' % (self.cur[0], self.cur[1], err_new),
+                                      detail=what))
         elif old is not None and new is not None:
             for d in compare(old, new, self.cur[1]):
                 self.problems.append(dict(sig='%s-differs:%s:%s' % (d['kind'], h['kind'], d['what']),
@@ -1170,6 +1175,8 @@ def tour_history(rng, settings, kinds):
 def reset_process_state(tr, hard=False):
     """bring pyhf back to numpy/64b/scipy with a flushed registry (two rounds)"""
     import pyhf
+    # models that went through a jax fit stay pinned by jax's jit caches (static argument `pdf`): they survive into the
+    # next history, where they form the prefix of the model history (Runner.prefix_from_live_roots)
     gc.collect()
     try:
         if hard:
@@ -1389,7 +1396,7 @@ def run(ctx):
     order = list(settings)
     rng.shuffle(order)
     hists.append(('tour', tour_history(rng, order if not ctx.quick else order[:5], all_kinds(rng))))
-    nh = ctx.n(40, 300)
+    nh = ctx.n(32, 300)
     maxlen = ctx.n(12, 40)
     for k in range(nh):
         hists.append(('random%d' % k, gen_history(rng, rng.randrange(4, maxlen + 1), backends, fit_prob=0.5 if ctx.quick else 0.8)))
@@ -1412,6 +1419,9 @@ def run(ctx):
         for pr in R.problems:
             report_problem(ctx, tr, ops, pr)
             found_concrete = True
+        if found_concrete and (len(ctx.violations) >= 3 or any(pr['sig'].startswith('registry-holds') for pr in R.problems)):
+            ctx.log('concrete failures found; remaining histories skipped')
+            break
         if R.mismatch:
             tie = tie or ('harness could not account for what happened: ' + R.mismatch[0])
         diag_all += R.diags
